@@ -190,7 +190,7 @@ def large_case(ctx, idx, rng):
     from .. import large
     L = int(rng.integers(8, 25))
     d = int(rng.choice([2, 3, 5]))
-    qd = _qd(rng, d, str(rng.choice(['zero', 'unsorted', 'pairs'])))
+    qd = _qd(rng, d, str(rng.choice(['zero', 'unsorted', 'pairs', 'huge'])))
     psi = large.big_state(rng, qd, L, int(rng.choice([6, 10])))
     # shape the spectra a little so that truncation happens
     for i in range(1, L):
